@@ -344,3 +344,83 @@ func TestC08ExtensionBoundaryGen(t *testing.T) {
 		}, fmt.Sprintf("flagged-%d", flagged))
 	})
 }
+
+// TestC08SiteBoundaries walks every family of large subtables across the
+// point where its encoder starts to refuse: the smallest refused size is
+// found by bisection between the size known to fit and the size known to
+// overflow, then every size from 14 below to 3 above it is encoded.  At each
+// of them the encoder must either refuse loudly or emit bytes that are
+// well-formed, tile the table and read back as the input - an offset that
+// wrapped silently fails the walk.  (The last element of a table usually
+// straddles the 64 KiB mark at exactly one of these sizes.)
+func TestC08SiteBoundaries(t *testing.T) {
+	for i := range lookups.BigClasses {
+		bc := &lookups.BigClasses[i]
+		for _, salt := range []int{17, 4} {
+			mk := func(n int) *infoCase {
+				p := bigParams(bc, n)
+				p.Salt = salt
+				lt := &gtab.LookupTable{Meta: &gtab.LookupMetaInfo{LookupType: bc.Format.Type()}, Subtables: []gtab.Subtable{bc.Build(p)}}
+				return &infoCase{
+					kind:      bc.Kind,
+					info:      &gtab.Info{ScriptList: dfltScripts(), FeatureList: oneFeature(), LookupList: gtab.LookupList{lt}},
+					desc:      []string{fmt.Sprintf("BigClass %s %+v", bc.Name, p)},
+					mayRefuse: true,
+				}
+			}
+			refuses := func(n int) bool {
+				c := mk(n)
+				var refused bool
+				func() {
+					defer func() {
+						if recover() != nil {
+							refused = true
+						}
+					}()
+					c.info.Encode()
+				}()
+				return refused
+			}
+			lo, hi := bc.Hi, bc.OvfLo
+			if !refuses(hi) {
+				continue // the library writes this size (judged by TestC08Sites)
+			}
+			if refuses(lo) {
+				t.Errorf("C08 violated [key=refuse:%s]: size N=%d is known to fit but is refused", bc.Name, lo)
+				continue
+			}
+			for hi-lo > 1 {
+				mid := (lo + hi) / 2
+				if refuses(mid) {
+					hi = mid
+				} else {
+					lo = mid
+				}
+			}
+			// hi is the smallest refused size
+			nRefused, nWritten := 0, 0
+			for n := hi - 14; n <= hi+3; n++ {
+				if n < bc.Lo {
+					continue
+				}
+				c := mk(n)
+				v, f := checkInfo(c)
+				if f != nil {
+					if !stats.Known(prop, f.key) {
+						t.Errorf("C08 violated [key=%s] %d below/above the first refused size (N=%d, first refused N=%d): %s\n  desc=%v", f.key, n-hi, n, hi, f.msg, c.desc)
+					}
+					continue
+				}
+				if v.refused {
+					nRefused++
+				} else {
+					nWritten++
+				}
+			}
+			stats.CaseIn("site-boundaries", stats.Hash(bc.Name, salt), true, func() string {
+				return fmt.Sprintf("%s (salt %d): first refused N=%d; around it %d sizes written consistently, %d refused", bc.Name, salt, hi, nWritten, nRefused)
+			}, "class:"+bc.Name)
+		}
+	}
+	stats.Exhaustive("site-boundaries")
+}
